@@ -192,8 +192,12 @@ def body_marks(view, f, published_only=True):
                     if "MRUC" in fx.effects.get(c, ()):
                         m = True
             if m:
-                if tag and ev.get("mclass") == "replace":
-                    # `map.clone_from(..)`: the user's Clone runs while the map is being overwritten (W;U, not U;W)
+                if tag and ev.get("mclass") in ("replace", "retain"):
+                    # `map.clone_from(..)`: the user's Clone runs while the map is being overwritten (W;U, not U;W).
+                    # `map.retain2(user predicate)`: the predicate runs while the map is being compacted; when it unwinds,
+                    # indexmap keeps the entries it has moved but does not rebuild its hash table, so later map operations can
+                    # panic half-way through THEIR mutation and the map ends up longer than the tables (observed: an
+                    # out-of-bounds qp.get_unchecked in change_priority_by after a caught panic in retain's predicate)
                     marks.setdefault(bb, []).append(("mruc", ev))
                 else:
                     marks.setdefault(bb, []).insert(len(marks.get(bb, [])) - (1 if tag else 0), ("mruc", ev))
